@@ -53,6 +53,7 @@ struct VSpec {
 struct DSpec {
   bool is_bool = false;
   int producer = -1;
+  bool used = false;  // named by some dependency/emit, i.e. exists in the built graph
 };
 struct GSpec {
   std::vector<VSpec> v;
@@ -312,6 +313,13 @@ GSpec gen_graph(vf::Rng& r) {
     g.any_trivial |= vs.trivial;
     g.v.push_back(vs);
   }
+  for (auto& vs : g.v) {
+    for (auto& dp : vs.deps) {
+      g.d[size_t(dp.target)].used = true;
+      if (dp.cond >= 0) g.d[size_t(dp.cond)].used = true;
+    }
+    for (int e : vs.emits) g.d[size_t(e)].used = true;
+  }
   uint64_t h = 0xC05;
   for (auto& vs : g.v) {
     h = vf::mix(h, vs.deps.size(), vs.emits.size(), uint64_t(vs.trivial) | uint64_t(vs.async_capable) << 1 | uint64_t(vs.macro) << 2);
@@ -335,7 +343,8 @@ Plan gen_plan(vf::Rng& r, const GSpec& g, int exec_kind) {
   p.late_read.assign(nv, 0);
   int fail_knob = r.chance(3, 20) ? int(r.range(1, 3)) : 0;  // 1 missing input, 2 vertex error, 3 executor refusal
   std::vector<int> inputs, produced;
-  for (size_t d = 0; d < nd; ++d) (g.d[d].producer < 0 ? inputs : produced).push_back(int(d));
+  for (size_t d = 0; d < nd; ++d)
+    if (g.d[d].used) (g.d[d].producer < 0 ? inputs : produced).push_back(int(d));
   auto make_val = [&](size_t d) {
     uint64_t x = r.next();
     return g.d[d].is_bool ? (x & 1) : ((x % 4 == 0) ? 0 : (x | 1));
@@ -374,11 +383,14 @@ Plan gen_plan(vf::Rng& r, const GSpec& g, int exec_kind) {
     if (!produced.empty() && r.chance(9, 10)) {
       t = r.chance(1, 2) ? produced[produced.size() - 1 - r.below(std::min<size_t>(produced.size(), 5))]
                          : produced[r.below(produced.size())];
+    } else if (!inputs.empty()) {
+      t = inputs[r.below(inputs.size())];
     } else {
-      t = int(r.below(nd));
+      continue;
     }
     if (std::find(p.targets.begin(), p.targets.end(), t) == p.targets.end()) p.targets.push_back(t);
   }
+  if (p.targets.empty()) p.targets.push_back(!produced.empty() ? produced.back() : inputs[0]);
   p.use_on_finish = r.chance(1, 4);
   uint64_t h = vf::mix(p.salt, uint64_t(p.reject_vertex + 1), uint64_t(p.use_on_finish));
   for (int t : p.targets) h = vf::mix(h, uint64_t(t));
@@ -442,6 +454,12 @@ struct Ctx {
   std::condition_variable acv;
   std::deque<AsyncJob> ajobs;
   bool astop = false;
+  // on_finish hand-over (callback -> driver)
+  std::mutex fmu;
+  std::condition_variable fcv;
+  Closure stash;
+  int cb_calls = 0;
+  std::vector<uint8_t> ext_relaxed;  // vertices that may legitimately be short-circuited when the external injection wins
 
   Ctx(size_t nv, size_t nd) : runs(nv), commits(nd), resets(nv), side(nd, 0) {}
   std::string describe() const {
@@ -818,5 +836,388 @@ struct MacroProc : public GraphProcessor, public ProcCore {
                         ANYFLOW_DEPEND_DATA(uint64_t, m, 2) ANYFLOW_EMIT_DATA(uint64_t, x))
 };
 
-// VF_PART3
+////////////////////////////////////////////////////////////////////////////////
+// Build the babylon graph of a spec
+std::string dname(int d) { return "d" + std::to_string(d); }
+
+std::unique_ptr<Graph> build_graph(GraphBuilder& b, Ctx& c, GraphExecutor& exec) {
+  b.set_executor(exec);
+  for (size_t v = 0; v < c.spec.v.size(); ++v) {
+    const VSpec& vs = c.spec.v[v];
+    Ctx* cp = &c;
+    int vid = int(v);
+    af::GraphVertexBuilder* vb;
+    if (vs.macro) {
+      vb = &b.add_vertex([cp, vid] {
+        auto* p = new MacroProc;
+        p->ctx = cp;
+        p->vid = vid;
+        return std::unique_ptr<GraphProcessor>(p);
+      });
+    } else if (vs.async_capable || !vs.int_process) {
+      vb = &b.add_vertex([cp, vid] {
+        auto* p = new ApiProcClosure;
+        p->ctx = cp;
+        p->vid = vid;
+        return std::unique_ptr<GraphProcessor>(p);
+      });
+    } else {
+      vb = &b.add_vertex([cp, vid] {
+        auto* p = new ApiProcSync;
+        p->ctx = cp;
+        p->vid = vid;
+        return std::unique_ptr<GraphProcessor>(p);
+      });
+    }
+    vb->name("v" + std::to_string(v));
+    static const char* kMacroDep[3] = {"a", "b", "m"};
+    for (size_t i = 0; i < vs.deps.size(); ++i) {
+      const DepSpec& dp = vs.deps[i];
+      auto& db = vs.macro ? vb->named_depend(kMacroDep[i]) : vb->anonymous_depend();
+      db.to(dname(dp.target));
+      if (dp.cond >= 0) {
+        if (dp.on) db.on(dname(dp.cond));
+        else db.unless(dname(dp.cond));
+      }
+    }
+    for (size_t j = 0; j < vs.emits.size(); ++j) {
+      auto& eb = vs.macro ? vb->named_emit("x") : vb->anonymous_emit();
+      eb.to(dname(vs.emits[j]));
+    }
+  }
+  if (b.finish() != 0) return nullptr;
+  return b.build();
+}
+
+////////////////////////////////////////////////////////////////////////////////
+// One run -> wait -> oracle -> reset cycle
+bool data_matches(Ctx& c, int d, std::string* why) {
+  GraphData* gd = c.gd[size_t(d)];
+  int8_t rs = c.ref.dstate[size_t(d)];
+  if (!gd->ready()) { *why = "not ready"; return false; }
+  bool empty = gd->empty();
+  if (rs == S_EMPTY) {
+    if (!empty) { *why = "holds a value, reference says empty"; return false; }
+    return true;
+  }
+  if (empty) { *why = "empty, reference says value"; return false; }
+  uint64_t got;
+  if (c.spec.d[size_t(d)].is_bool) {
+    const bool* pv = gd->value<bool>();
+    if (!pv) { *why = "value<bool>() null"; return false; }
+    got = *pv ? 1 : 0;
+  } else {
+    const uint64_t* pv = gd->value<uint64_t>();
+    if (!pv) { *why = "value<uint64_t>() null"; return false; }
+    got = *pv;
+  }
+  uint64_t sv = c.side[size_t(d)];  // plain payload written before the commit
+  if (got != c.ref.dval[size_t(d)] || sv != got) {
+    *why = vf::fmt("value %lx payload %lx, reference %lx", (unsigned long)got, (unsigned long)sv,
+                   (unsigned long)c.ref.dval[size_t(d)]);
+    return false;
+  }
+  return true;
+}
+
+std::string graph_state_dump(Ctx& c) {
+  std::string o = "graph state:\n";
+  if (!c.graph) return o;
+  auto& vs = c.graph->vertexes();
+  for (size_t v = 0; v < vs.size(); ++v) {
+    o += vf::fmt(" v%zu activated=%d waiting=%ld runs=%d deps:", v, int(vs[v]._activated.load(std::memory_order_relaxed)),
+                 long(vs[v]._waiting_num.load(std::memory_order_relaxed)), c.runs[v].load(std::memory_order_relaxed));
+    for (auto& dp : vs[v]._dependencies)
+      o += vf::fmt(" [w=%ld est=%d rdy=%d]", long(dp._waiting_num.load(std::memory_order_relaxed)), int(dp._established), int(dp._ready));
+    o += "\n";
+  }
+  o += " data ready:";
+  for (size_t d = 0; d < c.gd.size(); ++d)
+    if (c.gd[d]) o += vf::fmt(" d%zu=%d%s", d, int(c.gd[d]->ready()), c.gd[d]->_acquired.load(std::memory_order_relaxed) ? "a" : "");
+  o += vf::fmt("\n inflight=%d async_pending=%d phase=%d\n", c.inflight.load(), c.async_pending.load(), c.phase.load());
+  return o;
+}
+
+void compute_ext_relaxed(Ctx& c) {
+  c.ext_relaxed.assign(c.spec.v.size(), 0);
+  if (c.plan.ext_data < 0) return;
+  std::vector<int> st {c.spec.d[size_t(c.plan.ext_data)].producer};
+  while (!st.empty()) {
+    int v = st.back();
+    st.pop_back();
+    if (v < 0 || c.ext_relaxed[size_t(v)]) continue;
+    c.ext_relaxed[size_t(v)] = 1;
+    for (auto& dp : c.spec.v[size_t(v)].deps) {
+      st.push_back(c.spec.d[size_t(dp.target)].producer);
+      if (dp.cond >= 0) st.push_back(c.spec.d[size_t(dp.cond)].producer);
+    }
+  }
+}
+
+void run_cycle(Ctx& c, vf::Rng& r, const std::vector<std::string>& stall_points) {
+  size_t nv = c.spec.v.size(), nd = c.spec.d.size();
+  c.plan = gen_plan(r, c.spec, c.exec_kind);
+  c.ref = Ref();
+  {
+    RefEval ev(c.spec, c.plan, c.ref);
+    ev.run();
+  }
+  choose_external_injection(r, c.spec, c.plan, c.ref);
+  compute_ext_relaxed(c);
+  for (size_t v = 0; v < nv; ++v) c.runs[v].store(0, std::memory_order_relaxed);
+  for (size_t d = 0; d < nd; ++d) {
+    c.commits[d].store(0, std::memory_order_relaxed);
+    c.side[d] = 0;
+  }
+  c.ext_result.store(0, std::memory_order_relaxed);
+  c.cb_calls = 0;
+  c.policy = vf::draw_policy(r, stall_points, 40, 4000);
+  vf::watchdog().set_context(c.describe());
+
+  // inputs (and some produced data) are published before run()
+  for (size_t d = 0; d < nd; ++d) {
+    if (!c.plan.inject[d] || !c.gd[d]) continue;
+    bool ok;
+    if (c.spec.d[d].is_bool) {
+      auto cm = c.gd[d]->emit<bool>();
+      ok = bool(cm);
+      if (ok && c.plan.inject[d] == 1) { c.side[d] = c.plan.inject_val[d]; *cm = c.plan.inject_val[d] != 0; }
+      cm.release();
+    } else {
+      auto cm = c.gd[d]->emit<uint64_t>();
+      ok = bool(cm);
+      if (ok && c.plan.inject[d] == 1) { c.side[d] = c.plan.inject_val[d]; *cm = c.plan.inject_val[d]; }
+      cm.release();
+    }
+    if (!ok) c.fail("inject-committer-invalid", vf::fmt("emit() on d%zu of a freshly built / reset graph gave an invalid committer", d));
+    c.commits[d].fetch_add(1, std::memory_order_relaxed);
+  }
+  std::vector<GraphData*> tg;
+  for (int t : c.plan.targets) tg.push_back(c.gd[size_t(t)]);
+
+  vf::watchdog().arm(true);
+  c.phase.store(1, std::memory_order_relaxed);
+  vf::set_op("graph.run");
+  Closure closure = c.graph->run(tg.data(), tg.size());
+  if (c.plan.use_on_finish) {
+    vf::set_op("on_finish-callback");
+    Ctx* cp = &c;
+    closure.on_finish([cp](Closure&& fc) {
+      std::lock_guard<std::mutex> l(cp->fmu);
+      if (cp->cb_calls++ == 0) cp->stash = std::move(fc);
+      cp->fcv.notify_all();
+    });
+    std::unique_lock<std::mutex> l(c.fmu);
+    c.fcv.wait(l, [&] { return c.cb_calls > 0; });
+    closure = std::move(c.stash);
+    VF_COUNT("obs:on_finish_runs");
+  }
+  vf::set_op("closure.get");
+  int err = closure.get();
+  vf::progress();
+  if (!closure.finished()) c.fail("get-returned-unfinished", "closure.get() returned but finished() is false");
+  if (closure.error_code() != err) c.fail("error-code-unstable", vf::fmt("get() returned %d, error_code() %d", err, closure.error_code()));
+  if (!c.ref.fail && err == 0) {
+    // targets are published once get() returns, even while other vertices are still in flight
+    for (int t : c.plan.targets) {
+      std::string why;
+      if (!data_matches(c, t, &why))
+        c.fail("target-value-mismatch-after-get", vf::fmt("target d%d after get(): %s", t, why.c_str()));
+    }
+  }
+  c.phase.store(2, std::memory_order_relaxed);
+  vf::set_op("closure.wait");
+  closure.wait();
+  int infl = c.inflight.load(std::memory_order_relaxed);
+  vf::progress();
+  c.phase.store(0, std::memory_order_relaxed);
+  vf::watchdog().arm(false);
+  vf::set_op("oracle");
+  vf::disable_policy();
+  if (infl != 0) c.fail("wait-returned-with-vertex-in-flight", vf::fmt("closure.wait() returned while %d processor(s) were still between process() entry and done()", infl));
+  if (c.async_pending.load(std::memory_order_relaxed) != 0)
+    c.fail("wait-returned-with-vertex-in-flight", "closure.wait() returned while an asynchronous processor still holds its closure");
+  {
+    std::lock_guard<std::mutex> l(c.fmu);
+    if (c.cb_calls > 1) c.fail("on-finish-callback-twice", vf::fmt("on_finish callback invoked %d times", c.cb_calls));
+  }
+  bool ext_won = c.ext_result.load(std::memory_order_relaxed) == 1;
+  if (c.plan.ext_data >= 0) {
+    if (ext_won) VF_COUNT("rare:external_injection_won");
+    else if (c.ext_result.load(std::memory_order_relaxed) == 2) VF_COUNT("rare:external_injection_lost");
+  }
+  if (c.ref.fail) {
+    VF_COUNT("obs:failing_runs");
+    if (err == 0) c.fail("failing-run-reported-success", "the reference run fails (missing input / processor error / executor refusal) but the closure reports 0");
+  } else {
+    VF_COUNT("obs:successful_runs");
+    if (err != 0) {
+      c.fail("run-failed-unexpectedly", vf::fmt("closure error code %d but the sequential reference succeeds", err) );
+    } else {
+      for (int t : c.plan.targets) {
+        std::string why;
+        if (!data_matches(c, t, &why)) c.fail("target-value-mismatch", vf::fmt("target d%d after wait(): %s", t, why.c_str()));
+      }
+      for (size_t v = 0; v < nv; ++v) {
+        int n = c.runs[v].load(std::memory_order_relaxed);
+        int want = c.ref.outcome[v] == O_RAN ? 1 : 0;
+        if (n == want) continue;
+        if (ext_won && c.ext_relaxed[v] && n == 0) { VF_COUNT("rare:producer_short_circuited_by_injection"); continue; }
+        if (n > want) continue;  // reported online with a specific key (ran twice / unneeded / skip ignored)
+        c.fail("needed-vertex-did-not-run", vf::fmt("v%zu ran %d times, reference says %s", v, n, kOutcome[c.ref.outcome[v]]));
+      }
+      if (!ext_won) {
+        for (size_t d = 0; d < nd; ++d) {
+          if (!c.gd[d]) continue;
+          int8_t rs = c.ref.dstate[d];
+          if (rs == S_VAL || rs == S_EMPTY) {
+            std::string why;
+            if (!data_matches(c, int(d), &why)) c.fail("data-value-mismatch", vf::fmt("d%zu after wait(): %s", d, why.c_str()));
+          } else if (rs == S_UNK && c.gd[d]->ready()) {
+            c.fail("unneeded-data-published", vf::fmt("d%zu is ready although nothing demanded it", d));
+          }
+        }
+      }
+    }
+  }
+  bool nontrivial = c.ref.n_cond_false > 0 || c.ref.n_skip > 0 || c.ref.n_async > 0 || c.ref.n_pre_ready_dep > 0 ||
+                    c.ref.fail || c.plan.ext_data >= 0;
+  VF_COUNT_N("obs:processors_run", uint64_t(c.ref.n_ran));
+  VF_COUNT_N("obs:cond_false_deps", uint64_t(c.ref.n_cond_false));
+  VF_COUNT_N("obs:cond_true_deps", uint64_t(c.ref.n_cond_true));
+  VF_COUNT_N("obs:essential_skips", uint64_t(c.ref.n_skip));
+  VF_COUNT_N("obs:async_processors", uint64_t(c.ref.n_async));
+  VF_COUNT_N("obs:empty_deps_seen", uint64_t(c.ref.n_empty_dep));
+  vf::evaluated(vf::mix(c.spec.hash, c.plan.hash, uint64_t(c.exec_kind) * 16 + uint64_t(c.workers)), nontrivial);
+  if (c.cycle == 0 && (c.ep_index % 7) == 0)
+    vf::sample(vf::jstr(c.describe().substr(0, 1500)), 3);
+  if (vf::failed()) return;  // keep the state for the witness
+  closure = Closure();
+  c.graph->reset();
+  for (size_t v = 0; v < nv; ++v) {
+    if (c.resets[v].exchange(0, std::memory_order_relaxed) != 1)
+      c.fail("processor-reset-not-once", vf::fmt("Graph::reset() did not call reset() of v%zu exactly once", v));
+  }
+}
+
+const std::vector<std::string>& stall_point_names() {
+  static const std::vector<std::string> names = {
+      "af:dep_activate_added", "af:dep_act_term_m1", "af:dep_act_term_0", "af:dep_act_1", "af:dep_act_1_cond_unready",
+      "af:dep_act_1_cond_ready_est", "af:dep_act_2", "af:dep_ready_sub", "af:dep_ready_cond_est_activates_target",
+      "af:dep_ready_cond_false_sub2", "af:dep_ready_term_0", "af:vertex_ready", "af:vertex_activate_won",
+      "af:vertex_activate_sub", "af:vertex_invoke", "af:data_release_sealed", "af:data_acquired", "af:closure_vertex_sub",
+      "af:closure_data_sub", "af:closure_mark_finished", "cb:process_enter", "cb:before_commit", "cb:between_emits",
+      "cb:after_emits", "cb:async_start", "cb:hexec_before_task", "cb:external_inject"};
+  return names;
+}
+
+void run_episode(uint64_t seed, uint64_t ep, const std::string& mode) {
+  uint64_t es = vf::mix(seed, ep, 0xC05);
+  vf::Rng r(es);
+  vf::thread_begin(es, 0);
+  GSpec spec = gen_graph(r);
+  int kind;
+  if (mode == "inplace") kind = 0;
+  else if (mode == "pool") kind = 1;
+  else if (mode == "hexec") kind = 2;
+  else kind = int(r.pick<int>({0, 1, 1, 1, 2, 2}));
+  Ctx ctx(spec.v.size(), spec.d.size());
+  ctx.spec = spec;
+  ctx.ep_seed = seed;
+  ctx.ep_index = ep;
+  ctx.exec_kind = kind;
+  ctx.workers = kind == 0 ? 0 : int(r.range(1, 8));
+  ctx.async_threads = int(r.range(1, 3));
+  g_ctx = &ctx;
+
+  af::ThreadPoolGraphExecutor pool;
+  HExec hexec;
+  GraphExecutor* exec = &af::InplaceGraphExecutor::instance();
+  if (kind == 1) {
+    if (pool.initialize(size_t(ctx.workers), 256) != 0) { vf::inconclusive("ThreadPoolGraphExecutor::initialize failed"); g_ctx = nullptr; return; }
+    exec = &pool;
+  } else if (kind == 2) {
+    hexec.start(ctx.workers, es, int(r.below(3)));
+    g_hexec = &hexec;
+    exec = &hexec;
+  }
+  std::vector<std::thread> ath;
+  for (int i = 0; i < ctx.async_threads; ++i) ath.emplace_back(async_thread_main, &ctx, es, i);
+
+  const std::vector<std::string>& stall_points = stall_point_names();
+  {
+    GraphBuilder builder;
+    std::unique_ptr<Graph> graph = build_graph(builder, ctx, *exec);
+    if (!graph) {
+      ctx.fail("graph-build-failed", "GraphBuilder::finish()/build() rejected a generated acyclic single-producer graph");
+    } else {
+      ctx.graph = graph.get();
+      ctx.gd.assign(spec.d.size(), nullptr);
+      for (size_t d = 0; d < spec.d.size(); ++d) {
+        if (!spec.d[d].used) continue;
+        ctx.gd[d] = graph->find_data(dname(int(d)));
+        if (!ctx.gd[d]) ctx.fail("graph-build-failed", vf::fmt("find_data(d%zu) is null", d));
+      }
+      int cycles = int(r.range(3, 10));
+      for (ctx.cycle = 0; ctx.cycle < cycles && !vf::failed(); ++ctx.cycle) run_cycle(ctx, r, stall_points);
+    }
+    vf::disable_policy();
+    if (vf::failed()) {
+      // a violated run may have left processors in flight: do not tear the graph down under them
+      vf::watchdog().arm(false);
+      vf::finish_and_exit_now();
+    }
+    ctx.graph = nullptr;
+  }
+  {
+    std::lock_guard<std::mutex> l(ctx.amu);
+    ctx.astop = true;
+  }
+  ctx.acv.notify_all();
+  for (auto& t : ath) t.join();
+  if (kind == 1) pool.stop();
+  if (kind == 2) { hexec.stop(); g_hexec = nullptr; }
+  g_ctx = nullptr;
+  vf::thread_end();
+}
+
 }  // namespace
+
+int main(int argc, char** argv) {
+  vf::init(argc, argv, "C05", "c05_anyflow");
+  auto& a = vf::args();
+  {
+    ::babylon::LoggerBuilder lb;
+    lb.set_min_severity(::babylon::LogSeverity::FATAL);
+    ::babylon::LoggerManager::instance().set_root_builder(std::move(lb));
+    ::babylon::LoggerManager::instance().apply();
+  }
+  std::string mode = a.mode.empty() ? "all" : a.mode;
+  auto& wd = vf::watchdog();
+  wd.classify = []() -> std::string {
+    Ctx* c = g_ctx;
+    if (!c) return "";
+    int ph = c->phase.load(std::memory_order_relaxed);
+    if (ph == 0) return "";
+    if (c->async_pending.load(std::memory_order_relaxed) != 0) return "";  // a harness async job is still owed
+    HExec* h = g_hexec;
+    if (h && !h->idle()) return "";
+    return ph == 1 ? "stuck:run-never-finished" : "stuck:wait-never-returned";
+  };
+  wd.dump_extra = []() -> std::string {
+    Ctx* c = g_ctx;
+    return c ? graph_state_dump(*c) : std::string();
+  };
+  // vf::draw_policy publishes interned names with relaxed stores: intern them while no library thread exists
+  for (auto& nm : stall_point_names()) vf::intern(nm);
+  wd.start();
+  uint64_t n = vf::budget(260, 9000);
+  for (uint64_t e = 0; e < n && !vf::failed(); ++e) {
+    if (a.only_episode >= 0 && uint64_t(a.only_episode) != e) continue;
+    run_episode(a.seed, e, mode);
+  }
+  wd.shutdown();
+  vf::extra("assumptions", "\"dependencies whose condition equals their target are not generated; one producer per data; "
+                           "external concurrent emit only in graphs without trivial vertices\"");
+  return vf::finish();
+}
